@@ -533,6 +533,12 @@ class Interp:
                 return Cond(('eq', ka, kb), t is ast.Eq, f'{vrepr(a)[:40]} == {vrepr(b)[:40]}')
             return K(r if t is ast.Eq else not r)
         if t in (ast.In, ast.NotIn):
+            rng = b.a if isinstance(b, Term) and b.op == 'range' and len(b.a) <= 2 else \
+                (K(b.v.start), K(b.v.stop)) if isinstance(b, K) and isinstance(b.v, range) and b.v.step == 1 and not isinstance(a, K) else None
+            if rng is not None and (as_poly(a) is not None or isinstance(a, (Sym, PInt))):
+                lo, hi = (K(0), rng[0]) if len(rng) == 1 else rng
+                inside = self.truth(self.cmp(ast.LtE(), lo, a, n), n) and self.truth(self.cmp(ast.Lt(), a, hi, n), n)
+                return K(inside if t is ast.In else not inside)
             r = self.contains(b, a)
             if r is None:
                 return Cond(('in', repr(self.vkey(a)), repr(self.vkey(b))), t is ast.In, f'{vrepr(a)[:30]} in {vrepr(b)[:30]}')
